@@ -1042,3 +1042,37 @@ package larking
 //@ func (*state).clone serves C12
 //@   modifies fresh M$, fresh F$path., fresh F$variable., fresh E$P_variable
 //@   ensures [fresh-state C12] result != nil && isfresh(result) && result.path != nil && isfresh(result.path) && isfresh(result.conns) && isfresh(result.handlers)
+
+// http.go, per message: the body / response_body selectors stored in the method
+// at registration are walkable (AllSingular, proved in addRule), so applying them
+// never panics; a stats handler sees one payload event per message.
+//@ func (*streamHTTP).decodeRequestArgs serves C09 C18 C16 partial pre[protoreflect inv.init inv.keep post
+//@   returns (count, err)
+//@   requires s != nil && s.method != nil && AllSingular(s.method.body) && args != nil
+//@   count payloadEvents `stats.HandleRPC(`
+//@   loop 1 invariant -1 <= rangeindex && rangeindex < len(s.method.body) && AllSingular(s.method.body) && cur != nil
+//@   ensures [one-in-payload-event-per-message C18] err == nil && s.opts.statsHandler != nil ==> payloadEvents == 1
+//@   ensures [no-event-without-message C18] err != nil ==> payloadEvents == 0
+
+//@ func (*streamHTTP).SendMsg serves C04 C09 C18 C16 partial pre[protoreflect inv.init inv.keep post
+//@   returns (err)
+//@   requires s != nil && s.method != nil && AllSingular(s.method.resp) && impl(m, "proto.Message")
+//@   count payloadEvents `stats.HandleRPC(`
+//@   loop 1 invariant -1 <= rangeindex && rangeindex < len(s.method.resp) && AllSingular(s.method.resp) && cur != nil
+//@   ensures [one-out-payload-event-per-message C18] err == nil && s.opts.statsHandler != nil ==> payloadEvents == 1
+//@   ensures [no-event-without-message C18] err != nil ==> payloadEvents == 0
+
+//@ func (*streamWS).SendMsg serves C09 C16 partial pre[protoreflect inv.init inv.keep
+//@   requires s != nil && s.method != nil && AllSingular(s.method.resp) && impl(v, "proto.Message")
+//@   loop 1 invariant -1 <= rangeindex && rangeindex < len(s.method.resp) && AllSingular(s.method.resp) && cur != nil
+//@ func (*streamWS).RecvMsg serves C09 C16 partial pre[protoreflect inv.init inv.keep
+//@   requires s != nil && s.method != nil && AllSingular(s.method.body) && impl(m, "proto.Message")
+//@   loop 1 invariant -1 <= rangeindex && rangeindex < len(s.method.body) && AllSingular(s.method.body) && cur != nil
+//@ func AsHTTPBodyWriter serves C09 C16 partial pre[protoreflect inv.init inv.keep
+//@   requires stream != nil && msg != nil
+//@   assume at "for _, fd := range s.method.resp {" s != nil && s.method != nil && AllSingular(s.method.resp) && cur != nil
+//@   loop 1 invariant -1 <= rangeindex && rangeindex < len(s.method.resp) && AllSingular(s.method.resp) && cur != nil
+//@ func AsHTTPBodyReader serves C09 C16 partial pre[protoreflect inv.init inv.keep
+//@   requires stream != nil && msg != nil
+//@   assume at "for _, fd := range s.method.body {" s != nil && s.method != nil && AllSingular(s.method.body) && cur != nil
+//@   loop 1 invariant -1 <= rangeindex && rangeindex < len(s.method.body) && AllSingular(s.method.body) && cur != nil
